@@ -5,7 +5,9 @@ import cait_check as ck
 from common import run_check
 
 THEOREMS = [
+    "Pedal.Cait.c11_checked_case",
     "Pedal.Cait.c11_generalised_fragment_matches",
+    "Pedal.Cait.genChk_sound",
     "Pedal.Cait.c11_fragment_matches",
     "Pedal.Cait.c11_program_matches_itself",
     "Pedal.Cait.gen_deep",
@@ -21,8 +23,9 @@ NOTES = [
     "exp_table, the three symbol tables, conflict keys, match_root), not proved",
     "'obtained from the program by the generalisation steps' is the Lean relation genAt (PedalProofs/CaitGen.lean): "
     "___ / __e__ Names (or expression statements made of them) anywhere, one function rho from _v_ keys to "
-    "identifiers, children dropped in order, everything else kept; that the harness's derive() produces patterns "
-    "inside this relation is by construction of derive(), not checked per run",
+    "identifiers, children dropped in order, everything else kept.  Whether a generated case lies inside it is "
+    "DECIDED per case by the driver (genCase, proved sound: genChk_sound / c11_checked_case) from the alignment the "
+    "harness's derive() records; the evidence counts covered / outside cases (search.theorem_domain)",
     "pattern trees satisfy opLeaves / binOp3 (Add/Mult nodes are leaves, a BinOp has three children): true of "
     "every ast tree, checked by the driver on every request",
     "CaitNode.find_matches(..., use_previous=True) (sub-matches inheriting the parent's bindings) is exercised on "
